@@ -105,7 +105,59 @@ return back.tags
                  'fqSafe is the identity on header-safe strings (assumed regular-expression contract)'],
 )
 
-UNITS = [phred, as_fastq, roundtrip]
+# the cell index is whatever the barcode file gives: an integer when the file numbers its cells (0 included), else a name
+def record_int(index):
+    return lambda eng, name: _record_int(eng, name, index)
+
+
+def _record_int(eng, name, index):
+    info = eng.loader.classref(FB, 'TaggedRecord')
+    tags = {t: 'v' + t for t in TAGSET}
+    tags['bi'] = index
+    tags['Is'] = safe_atom(eng, 'tag_Is')
+    eng.spec_env['TAGS0'] = dict(tags)
+    mod = eng.loader.module_by_relpath(FB)
+    return Obj('TaggedRecord', {'tags': tags, 'tagDefinitions': mod.resolve_global('TagDefinitions', eng),
+                                'sequence': None, 'plus': None, 'qualities': None}, info=info)
+
+
+as_fastq_int = Contract(
+    PROP, FB + '::TaggedRecord.asFastq', name='TaggedRecord.asFastq[integer cell index]',
+    params={'self': record_int(0), 'sequence': 'str', 'dirAtt': 'str', 'baseQualities': 'str', 'format': ('const', 'illumina')},
+    cases=[{}, {'self': record_int(1)}, {'self': record_int(384)}, {'self': record_int(-1)}],
+    setup=c04_setup,
+    requires=['len(TAGS0["Is"]) <= 100'],
+    ensures={
+        'record_text': 'result == "@" + %s + "\\n" + sequence + "\\n" + dirAtt + "\\n" + baseQualities + "\\n"' % HEADER,
+    },
+    raises={},
+    assumptions=['every tag but Is (symbolic header-safe string) and bi (the integers 0, 1, 384, -1) holds a fixed header-safe string'],
+)
+
+
+def as_fastq_int_replay(inputs, clause):
+    """real TaggedRecord.asFastq with the model's cell index (integer) and instrument name"""
+    mod = __import__('singlecellmultiomics.modularDemultiplexer.baseDemultiplexMethods', fromlist=['x'])
+    tags = inputs['self']['attrs']['tags']
+    tr = mod.TaggedRecord(mod.TagDefinitions)
+    for k in TAGSET:
+        tr.tags[k] = 'v' + k
+    tr.tags['bi'] = int(tags['bi'])
+    tr.tags['Is'] = 'x' * len(tags['Is'])
+    want = '@' + ';'.join('%s:%s' % (k, tr.tags[k]) for k in WRITTEN) + '\nACGT\n+\nIIII\n'
+    try:
+        out = tr.asFastq('ACGT', '+', 'IIII')
+        obs = {'outcome': 'return', 'value': out, 'expected': want}
+    except Exception as e:      # noqa: BLE001
+        out = None
+        obs = {'outcome': 'raise', 'value': [type(e).__name__, str(e)[:80]], 'expected': want}
+    if out != want:
+        return {'status': 'confirmed', 'observed': obs, 'failed': [{'clause': clause}]}
+    return {'status': 'not-reproduced', 'observed': obs}
+
+
+as_fastq_int.replay = as_fastq_int_replay
+UNITS = [phred, as_fastq, as_fastq_int, roundtrip]
 
 
 def as_fastq_replay(inputs, clause):
@@ -306,6 +358,73 @@ parse_header = Contract(
                  'DNA sequence (int() fails on it); fields are header-safe atoms'],
 )
 UNITS.append(parse_header)
+
+
+# the two other header forms the parser accepts: without the index ("... 1:N:0", ten fields) and without the comment (seven
+# fields): the fields present go under their tags unchanged, the index is "N"
+def pih_short_setup(n_fields):
+    def setup(eng):
+        pih_setup(eng)
+        fields = eng.spec_env['FIELDS']
+        for f in fields:
+            eng.assume(z3.Length(f.z) >= 1)
+        if n_fields == 10:
+            hdr = sum(([':' if i else '', f] for i, f in enumerate(fields[:7])), []) + [' '] + \
+                sum(([':' if i else '', f] for i, f in enumerate(fields[7:])), [])
+        else:
+            hdr = sum(([':' if i else '', f] for i, f in enumerate(fields[:7])), [])
+        eng.spec_env['HDR'] = segstr.build(hdr)
+        eng.spec_env['NF'] = n_fields
+    return setup
+
+
+def short_header_unit(n_fields):
+    names = ["Is", "RN", "Fc", "La", "Ti", "CX", "CY", "RP", "Fi", "CN"]
+    return Contract(
+        PROP, FB + '::TaggedRecord._parse_illumina_header', name='TaggedRecord._parse_illumina_header[%d fields]' % n_fields,
+        params={'self': ('obj', 'TaggedRecord', {'tags': ('const', None)}, FB), 'header': lambda e, n: e.spec_env['HDR'],
+                'indexFileParser': 'none', 'indexFileAlias': ('const', 'indices')},
+        setup=pih_short_setup(n_fields),
+        pre_state=lambda eng, fr: (fr.env['self'].attrs.__setitem__('tags', {}), fr.env.update({'int': eng.spec_env['INT']}))[0],
+        ensures={
+            'fields_of_the_header_under_their_tags_unchanged':
+                'all(self.tags[t] == FIELDS[i] for i, t in enumerate(%r))' % names[:n_fields],
+            'no_index_in_the_header_means_N': 'self.tags["aa"] == "N"',
+        },
+        raises={},
+        assumptions=['Illumina header of %d fields (%s), fields non-empty header-safe atoms; illuminaHeaderSplitRegex (":| ") '
+                     'splits at every colon and space (translated)' % (n_fields, 'no index' if n_fields == 10 else 'no comment')],
+    )
+
+
+def short_header_replay(n_fields):
+    def replay(inputs, clause):
+        """real TaggedRecord._parse_illumina_header on headers of that form whose fields end in every digit and letter"""
+        mod = __import__('singlecellmultiomics.modularDemultiplexer.baseDemultiplexMethods', fromlist=['x'])
+        names = ["Is", "RN", "Fc", "La", "Ti", "CX", "CY", "RP", "Fi", "CN"][:n_fields]
+        bad = []
+        for y in ('1042', '2201', '7', '12', '1111', '2222', '9/1'):
+            f = ['NS500', '12', 'HFCXX', '1', '11101', '5021', y, '1', 'N', '0'][:n_fields]
+            hdr = ':'.join(f[:7]) + ((' ' + ':'.join(f[7:])) if n_fields == 10 else '')
+            tr = mod.TaggedRecord(mod.TagDefinitions)
+            try:
+                tr._parse_illumina_header(hdr)
+                got = [tr.tags.get(t) for t in names]
+            except Exception as e:      # noqa: BLE001
+                got = '%s: %s' % (type(e).__name__, e)
+            if got != f or tr.tags.get('aa') != 'N':
+                bad.append({'header': hdr, 'tags': got, 'aa': tr.tags.get('aa')})
+        obs = {'outcome': 'return', 'value': bad}
+        if bad:
+            return {'status': 'confirmed', 'observed': obs, 'failed': [{'clause': clause}]}
+        return {'status': 'not-reproduced', 'observed': obs}
+    return replay
+
+
+for _n in (10, 7):
+    _u = short_header_unit(_n)
+    _u.replay = short_header_replay(_n)
+    UNITS.append(_u)
 
 
 # ------------------------------------------------------------------------------ str(record): what FastqHandle.write emits
